@@ -1337,7 +1337,7 @@ def run_gadgets(ck, n_cases=None, proof=True):
             failing = failing + fail2
         res['proof_ok'], res['failing'] = ok, failing
         if ck.tier == 'thorough' and ok:
-            badm = ck.leanchecker(['MpVerif.C01.Props', 'MpVerif.C01.PropsCompose', 'MpVerif.C01.PropsCtxGen', 'MpVerif.C01.PropsObjective', 'MpVerif.C01.PropsGenTie', 'MpVerif.C01.PropsConvert', 'MpVerif.C01.PropsPreproTie'])
+            badm = ck.leanchecker(['MpVerif.C01.Props', 'MpVerif.C01.PropsCompose', 'MpVerif.C01.PropsCtxGen', 'MpVerif.C01.PropsObjective', 'MpVerif.C01.PropsGenTie', 'MpVerif.C01.PropsConvert', 'MpVerif.C01.PropsPreproTie'] + [m for m, _f, _n in EXTRA_MODULES if m.endswith('PropsPropBounds')])
             if badm:
                 res['proof_ok'] = False
                 res['failing'] += ['leanchecker rejected %s' % x for x in badm]
